@@ -141,12 +141,12 @@ def _grid_ctx_terms():
 
 def enumerate_cases(tier):
     """term x {0,1,2 context terms} x elim in {[x],[x,y]} x singleton orders x refine/relax.
-    thorough: a fixed 1/7 stride of the grid (~190k calls); quick: 1/400 stride."""
+    thorough: a fixed 1/3 stride of the grid (~440k calls); quick: 1/400 stride."""
     ids = [i for i in gens.tactic_ids() if i != 6]
     terms = _grid_terms()
     cts = _grid_ctx_terms()
     ctxs = [[]] + [[c] for c in cts] + [[c1, c2] for c1, c2 in itertools.combinations(cts, 2)]
-    stride = 397 if tier == "quick" else 7
+    stride = 397 if tier == "quick" else 3
     idx = 0
     for t in terms:
         for ctx in ctxs:
